@@ -22,7 +22,7 @@ type c08Event struct {
 	Batch   []c08Event `json:"batch,omitempty"`
 }
 
-var c08VariantNames = []string{"clean", "syntax", "unused", "undefined", "defglobal", "useglobal", "require", "requiremissing", "annoclass", "useannoclass", "dupkey", "empty", "undefinedB", "requiremissingB", "useglobalB", "dofile", "annoclassdup", "annoclassdup", "annomixed", "usefilenameglobal", "undefinedCase"}
+var c08VariantNames = []string{"clean", "syntax", "unused", "undefined", "defglobal", "useglobal", "require", "requiremissing", "annoclass", "useannoclass", "dupkey", "empty", "undefinedB", "requiremissingB", "useglobalB", "dofile", "annoclassdup", "annoclassdup", "annomixed", "usefilenameglobal", "undefinedCase", "syntaxB"}
 
 // twins: variants that differ from each other in one letter of a name only (same length; undefinedCase differs from
 // undefined in the case of one letter). A change from a variant to its twin keeps type and range of every diagnostic.
@@ -30,6 +30,7 @@ var c08Twins = map[string][]string{
 	"undefined": {"undefinedB", "undefinedCase"}, "undefinedB": {"undefined", "undefinedCase"}, "undefinedCase": {"undefined", "undefinedB"},
 	"requiremissing": {"requiremissingB"}, "requiremissingB": {"requiremissing"},
 	"useglobal": {"useglobalB"}, "useglobalB": {"useglobal"},
+	"syntax": {"syntaxB"}, "syntaxB": {"syntax"}, // (two different syntax errors: a buffer and the file below it can both be broken)
 }
 
 // c08Next draws the next content variant of a file: one time in three the twin of the current one, if it has one.
@@ -48,6 +49,8 @@ func c08Variant(v string, i, n int, layout string) string {
 		return fmt.Sprintf("local a%d = %d\nlocal function f%d(x)\n  return x + a%d\nend\nprint(f%d(1))\n", i, i, i, i, i)
 	case "syntax":
 		return fmt.Sprintf("local a%d = %d\nlocal function f%d(x\n  return x + a%d\nend\nprint(f%d(1))\n", i, i, i, i, i)
+	case "syntaxB":
+		return fmt.Sprintf("local a%d = %d\nlocal function f%d(x)\n  return x + + a%d\nend\nprint(f%d(1)\n", i, i, i, i, i)
 	case "unused":
 		return fmt.Sprintf("local a%d = %d\nlocal unused%d = 2\nprint(a%d)\n", i, i, i, i)
 	case "undefined":
